@@ -463,7 +463,7 @@ fn build(thorough: bool) -> Vec<Doc> {
     for s in if t { t_sam } else { q_sam } {
         docs.push(make_doc(Format::Sam, format!("sam-{s}"), s, write_sam_plain(a(s)), false));
     }
-    if t {
+    {
         docs.push(make_doc(Format::Sam, "sam-full-crlf", "full", to_crlf(&write_sam_plain(a("full"))), false));
     }
     let q_cram: &[(&str, usize)] = &[("mapped", 3), ("full", 3), ("paired", 3)];
@@ -499,7 +499,7 @@ fn build(thorough: bool) -> Vec<Doc> {
     for s in if t { t_vcf } else { q_vcf } {
         docs.push(make_doc(Format::Vcf, format!("vcf-{s}"), s, write_vcf(Vec::new(), v(s), |_, _| Ok(())), false));
     }
-    if t {
+    {
         docs.push(make_doc(Format::Vcf, "vcf-two-samples-crlf", "two-samples", to_crlf(&write_vcf(Vec::new(), v("two-samples"), |_, _| Ok(()))), false));
     }
     {
@@ -522,20 +522,20 @@ fn build(thorough: bool) -> Vec<Doc> {
     }
     docs.push(make_doc(Format::Fastq, "fastq-simple", "simple", write_fastq(0), false));
     docs.push(make_doc(Format::Fastq, "fastq-desc", "desc", write_fastq(1), false));
+    docs.push(make_doc(Format::Fastq, "fastq-desc-crlf", "desc", to_crlf(&write_fastq(1)), false));
     if t {
-        docs.push(make_doc(Format::Fastq, "fastq-desc-crlf", "desc", to_crlf(&write_fastq(1)), false));
         docs.push(make_doc(Format::Fastq, "fastq-empty", "empty", Vec::new(), false));
     }
 
     // GFF3, GTF, BED
     docs.push(make_doc(Format::Gff, "gff-directives-escapes", "gff0", write_gff(0), false));
     docs.push(make_doc(Format::Gff, "gff-resolution", "gff1", write_gff(1), false));
-    if t {
+    {
         docs.push(make_doc(Format::Gff, "gff-directives-escapes-crlf", "gff0", to_crlf(&write_gff(0)), false));
     }
     docs.push(make_doc(Format::Gtf, "gtf-basic", "gtf0", write_gtf(0), false));
     docs.push(make_doc(Format::Gtf, "gtf-repeated-keys", "gtf1", write_gtf(1), false));
-    if t {
+    {
         docs.push(make_doc(Format::Gtf, "gtf-basic-crlf", "gtf0", to_crlf(&write_gtf(0)), false));
     }
     docs.push(make_doc(Format::Bed, "bed3", "bed3", write_bed(3), false));
